@@ -9,6 +9,7 @@
     ["find_one_and_update",  filter, update,      projection|null, sort|null, upsert, after]
     ["find_one_and_replace", filter, replacement, projection|null, sort|null, upsert, after]
     ["find_one_and_delete",  filter,              projection|null, sort|null]
+    ["bulk_builder", [request, …], ordered, times]   (builder API, `execute()` called `times` times)
     ["bulk_write", [request, …], ordered]   with requests
         ["InsertOne", doc] ["UpdateOne", f, u, upsert] ["UpdateMany", f, u, upsert]
         ["ReplaceOne", f, r, upsert] ["DeleteOne", f] ["DeleteMany", f]
@@ -195,6 +196,52 @@ def bulkWrite (cfg : Cfg) (now : Int) (c : Coll) (reqs : List Val) (ordered : Bo
     if reqs.isEmpty then (c, .err .invalidOp)
     else bulkLoop cfg now ordered reqs 0 c {}
 
+/-! ### the bulk builders (`initialize_ordered_bulk_op` / `initialize_unordered_bulk_op`)
+
+`BulkOperationBuilder` is an object with state: the registered executors and the flag `done`,
+which `execute` sets BEFORE it runs the first executor (collection.py:316-320) — a bulk that
+failed half-way cannot be executed again either. -/
+
+structure Builder where
+  reqs : List Val
+  ordered : Bool
+  done : Bool := false
+
+/-- `BulkOperationBuilder.execute` -/
+def Builder.execute (cfg : Cfg) (now : Int) (c : Coll) (b : Builder) : Coll × Builder × Out :=
+  if b.reqs.isEmpty then (c, b, .err .invalidOp)
+  else if b.done then (c, b, .err .invalidOp)
+  else
+    let r := bulkLoop cfg now b.ordered b.reqs 0 c {}
+    (r.1, { b with done := true }, r.2)
+
+/-- an outcome as a value (for operations that report several outcomes) -/
+def outVal : Out → Val
+  | .val v => .doc [("k", .str "val"), ("v", v)]
+  | .err e => .doc [("k", .str "err"), ("v", .str e.name)]
+  | .bulkErr d => .doc [("k", .str "bulkErr"), ("v", d)]
+
+/-- `execute()` called `n` times in a row on the same builder -/
+def executeTimes (cfg : Cfg) (now : Int) : Nat → Coll → Builder → Coll × List Out
+  | 0, c, _ => (c, [])
+  | n + 1, c, b =>
+    let r := b.execute cfg now c
+    let rest := executeTimes cfg now n r.1 r.2.1
+    (rest.1, r.2.2 :: rest.2)
+
+/-- build a bulk through the builder API (each request validated as it is registered), then call
+    `execute()` `times` times -/
+def bulkBuilder (cfg : Cfg) (now : Int) (c : Coll) (reqs : List Val) (ordered : Bool)
+    (times : Nat) : Coll × Out :=
+  match bulkPrecheck reqs with
+  | .error e => (c, .err e)
+  | .ok () =>
+    let r := executeTimes cfg now times c { reqs := reqs, ordered := ordered }
+    -- a run the model does not express makes the whole step unmodelled
+    if r.2.any (fun o => match o with | .err .unmodelled => true | _ => false) then
+      (r.1, .err .unmodelled)
+    else (r.1, .val (.arr (r.2.map outVal)))
+
 /-! ### the extended step -/
 
 def optVal (v : Option Val) : Val := v.getD .null
@@ -226,6 +273,8 @@ def stepX (cfg : Cfg) (now : Int) (c : Coll) (op : Val) : Coll × Out :=
      | .ok () => fam f proj (some u) sortV (boolOf up) (boolOf after))
   | .arr [.str "find_one_and_delete", f, proj, sortV] => fam f proj none sortV false false
   | .arr [.str "bulk_write", .arr reqs, ordered] => bulkWrite cfg now c reqs (boolOf ordered)
+  | .arr [.str "bulk_builder", .arr reqs, ordered, .int times] =>
+    bulkBuilder cfg now c reqs (boolOf ordered) times.toNat
   | _ => stepColl cfg now c op
 
 def stepXS (cfg : Cfg) (s : St) (op : Val) : St × Out :=
